@@ -415,7 +415,9 @@ EvNode(e, M) ==
          IN IF ~e.hasfin THEN R(Mc, c.ctl, c.d)
             ELSE LET f == Block(e.fin, Mc) IN
                  IF f.ctl # "norm" THEN f                         \* the finally block's own abrupt end replaces what was pending
-                 ELSE IF c.ctl # "norm" THEN R(f.M, c.ctl, c.d)   \* pending exception / return / break continues after finally ran once
+                 \* the pending exception / return / break continues after finally ran once - with ITS value, class and call stack,
+                 \* whatever the finally block threw and caught inside itself in the meantime
+                 ELSE IF c.ctl # "norm" THEN R([f.M EXCEPT !.thrown = c.M.thrown, !.err = c.M.err, !.stack = c.M.stack], c.ctl, c.d)
                  ELSE f)                                          \* the value of the statement is the finally block's
     [] e.k = "break" -> R(M, "brk", 0)
     [] e.k = "continue" -> R(M, "cont", 0)
